@@ -126,6 +126,38 @@ def gen_history(rng, n, kind='random'):
         ops.append({'op': 'merge', 'obj': 'M', 'src': 'N'})
         ops.append({'op': 'fingerprint', 'obj': 'M'})
         return ops, objs
+    if kind == 'handbuilt':
+        # libraries put together by hand (empty, then merged into) next to each other in one process: what one receives
+        # - uncertainty data included - is not seen by the others
+        objs['X'] = objs['Y'] = objs['Z'] = 'BensonGA'
+        ops.append({'op': 'new', 'obj': 'X', 'lib': 'BensonGA'})
+        load('U', rng.choice(UQ_LIBS))
+        ops.append({'op': 'merge', 'obj': 'X', 'src': 'U'})
+        ops.append({'op': 'new', 'obj': 'Y', 'lib': 'BensonGA'})
+        load('B', 'BensonGA')
+        ops.append({'op': 'merge', 'obj': 'Y', 'src': 'B'})
+        ops.append({'op': 'fingerprint', 'obj': 'Y'})
+        dec('Y', 'CCO')
+        ev('Y', 'CCO', 'h')
+        ops.append({'op': 'new', 'obj': 'Z', 'lib': 'BensonGA'})
+        ops.append({'op': 'fingerprint', 'obj': 'Z'})
+        ops.append({'op': 'fingerprint', 'obj': 'X'})
+        return ops, objs
+    if kind == 'smemo':
+        # entropy asked at one temperature before and after the library was merged into (overwriting)
+        la, lc = rng.sample(['BensonGA', 'SalciccioliGA2012', 'PPY'], 2)
+        load('A', la)
+        smi = rng.choice(['CCO', 'CCC', 'CC(C)O', 'CCCCO'])
+        T = rng.choice([400.0, 500.0])
+        dec('A', smi)
+        for pr in ('s', 'g', 'h'):
+            ops.append({'op': 'eval', 'obj': 'A', 'smiles': smi, 'prop': pr, 'T': T, 'elements': False})
+        load('C', lc)
+        ops.append({'op': 'merge', 'obj': 'A', 'src': 'C'})
+        dec('A', smi)
+        for pr in ('s', 'g', 'h', 'cp'):
+            ops.append({'op': 'eval', 'obj': 'A', 'smiles': smi, 'prop': pr, 'T': T, 'elements': False})
+        return ops, objs
     if kind == 'uq':
         # several estimates with different group sets on ONE library object, then standard errors
         lib = rng.choice(UQ_LIBS)
@@ -176,8 +208,8 @@ def recipes(ops):
     rec = {}
     out = []
     for o in ops:
-        if o['op'] == 'load':
-            rec[o['obj']] = ('load', o['lib'])
+        if o['op'] in ('load', 'new'):
+            rec[o['obj']] = (o['op'], o['lib'])
         elif o['op'] == 'merge':
             rec[o['obj']] = ('merge', rec[o['obj']], rec[o['src']])
         out.append(rec[o['obj']])
@@ -185,10 +217,10 @@ def recipes(ops):
 
 
 def flatten(tree, ops, names):
-    if tree[0] == 'load':
+    if tree[0] in ('load', 'new'):
         name = 'r%d' % len(names)
         names.append(name)
-        ops.append({'op': 'load', 'obj': name, 'lib': tree[1]})
+        ops.append({'op': tree[0], 'obj': name, 'lib': tree[1]})
         return name
     d = flatten(tree[1], ops, names)
     s_ = flatten(tree[2], ops, names)
@@ -251,6 +283,8 @@ def run(ctx):
     hs += [gen_history(rng, 0, 'reload') for _ in range(ctx.n(2, 20))]
     hs += [gen_history(rng, 0, 'molobj') for _ in range(ctx.n(3, 30))]
     hs += [gen_history(rng, 0, 'nodata') for _ in range(ctx.n(2, 12))]
+    hs += [gen_history(rng, 0, 'handbuilt') for _ in range(ctx.n(1, 6))]
+    hs += [gen_history(rng, 0, 'smemo') for _ in range(ctx.n(2, 12))]
     with ThreadPoolExecutor(vlib.NCPU) as ex:
         runs = list(ex.map(lambda h: vlib.run_impl('history', {'cases': [{'ops': h[0]}]}, timeout=900), hs))
     # the single-operation references, each in a fresh process
